@@ -347,7 +347,7 @@ def run(ctx):
         return pairs, line.strip()
 
     pcases = [[], [(0, 1)], [(1, 0), (0, 0)]]
-    budget = 4 if quick else 60
+    budget = 8 if quick else 80
     used = 0
 
     def cost(exps):
@@ -355,7 +355,9 @@ def run(ctx):
     templates = []
     a, bb = rng.randrange(1, R), rng.randrange(1, R)
     templates.append([(a, bb), (-(a * bb), 1)])                # e(aG1,bG2)·e(-abG1,G2) = 1
-    templates.append([(a, bb), (a, bb)])                       # false: e(G1,G2)^(2ab) ≠ 1
+    # the same (g1, g2) pair listed twice must be multiplied in twice (a per-call cache of Miller loops must not drop it)
+    templates.append([(a, bb), (a, bb), (-(2 * a * bb), 1)])   # true:  e(G1,G2)^(2ab - 2ab)
+    templates.append([(a, bb), (a, bb), (-(a * bb), 1)])       # false: e(G1,G2)^(ab)
     for _ in range(200):
         a, bb, c = rng.randrange(1, R), rng.randrange(1, R), rng.randrange(1, R)
         kind = rng.randrange(6)
@@ -369,8 +371,10 @@ def run(ctx):
             templates.append([(a, bb), (c, 1), (-(a * bb + c) + 1, 1)])     # off by one: false
         elif kind == 4:
             templates.append([(a, 1)])                                        # single non-degenerate pairing: false
-        else:
+        elif rng.random() < 0.5:
             templates.append([(a, bb), (-(a * bb), 1), (c, 0)])
+        else:
+            templates.append([(a, bb), (c, 1), (a, bb), (-(2 * a * bb + c), 1)])   # repeated pair, not adjacent: true
     for exps in templates:
         if used + cost(exps) > budget:
             continue
